@@ -200,6 +200,10 @@ Definition net_monitor (k : N) (ins : list N) : list N :=
   if k =? 1654 then [b2n (mon_recycle ins)] else
   if k =? 1655 then [b2n (mon_hdr ins)] else
   if k =? 1656 then [b2n (mon_receive ins)] else
-  if k =? 1657 then [b2n (mon_complete ins)] else [77777].
+  if k =? 1657 then [b2n (mon_complete ins)] else
+  (* 1658 [offered; accepted]: the accepted features are offered ones, and VIRTIO_NET_F_MRG_RXBUF (bit 15) is not among
+     them: the receive path hands out one buffer per frame (5.1.6.4: with MRG_RXBUF a frame may span several buffers) *)
+  if k =? 1658 then match ins with [off; neg] => [b2n ((N.land neg off =? neg) && negb (N.testbit neg 15))] | _ => [77777] end else
+  [77777].
 
 Definition net_is_monitor (k : N) : bool := (1650 <=? k) && (k <? 1660).
